@@ -176,7 +176,7 @@ impl<R: Read> Read for AesReaderValid<R> {
 
 //@impl src/aes.rs | impl<R: Read> AesReaderValid<R>
 impl<R: Read> AesReaderValid<R> {
-//@use aesreadervalid_check_auth_code
+//@use aesreadervalid_check_auth_code optional
 //@use aesreadervalid_into_inner
 }
 
